@@ -484,8 +484,14 @@ def c02(pid, tier, seed, t0):
     mc = [mc_register("C02", "SmallDecls", ["a", "b"], ["TypeOK", "Frame", "ReadBack", "WriteBackIdentity"], ["ReceiverSame"])]
     _, star = vlib.corpus("star")
     _, model = vlib.corpus("model")
-    rnd = sub(gen_random(tier, seed, "overlap", "c02", 60, 600), lambda d, f: contiguous(d, f) and f["access"] != "r")
-    decls = copyd(star) + copyd(model) + copyd(rnd) + (tall_chunks() if tier == "thorough" else [])
+    rnd = sub(gen_random(tier, seed, "overlap", "c02", 60, 600), lambda d, f: f["access"] != "r")
+    _, nc = vlib.corpus("nc")
+    _, arr = vlib.corpus("arr")
+    # "every writable field": the contiguous scalars carry the weight, range lists and a slice of the arrays ride along
+    arrs = copyd(arr)
+    for d in arrs:
+        d["fields"] = d["fields"][:: q(tier, 6, 2)]
+    decls = copyd(star) + copyd(model) + copyd(rnd) + copyd(nc) + arrs + (tall_chunks() if tier == "thorough" else [])
     declfile = save_decls("C02", decls)
     legs = [trace_leg(pid, tier, seed, "star+model+rand", decls, declfile, "write,table", q(tier, 1, 2), crate="rt-c02")]
     PROOFS["C02"] = tlaps_leg(["Frame", "RoundTrip"])
